@@ -1,6 +1,7 @@
 package props
 
 import (
+	"github.com/meshplus/bitxhub-kit/storage"
 	"crypto/sha256"
 	"fmt"
 	"strings"
@@ -44,7 +45,7 @@ type chainRun struct {
 	orphanBH map[string]bool // block hashes that exist only on abandoned forks
 	orphanTx map[string]bool
 	// non-triviality
-	rollbacks, bigRollbacks, differentContinuation, reexecSame, refusals int
+	rollbacks, bigRollbacks, differentContinuation, reexecSame, refusals, crashes int
 	firstWriteRolledBack                                                 bool
 	maxHead                                                              uint64 // highest head ever committed: journals below maxHead-10 are pruned
 }
@@ -241,7 +242,13 @@ func (r *chainRun) checkState(t uint64) {
 func chainProperty(prop string) func(t *rapid.T) {
 	return func(t *rapid.T) {
 		audit := rapid.Bool().Draw(t, "audit")
-		w := sim.StdWorld(audit).Instantiate(strings.ToLower(prop))
+		// the state store is handed to the ledger through a fault-injecting wrapper (a new one at every open), so that a
+		// history can lose the state commit of a block
+		var fs *sim.FaultStore
+		tpl := sim.StdWorld(audit)
+		opts := tpl.Opts
+		opts.WrapState = func(s storage.Storage) storage.Storage { fs = sim.NewFaultStore(s); return fs }
+		w := tpl.InstantiateWith(strings.ToLower(prop), opts)
 		defer func() { w.N.Destroy() }()
 		r := &chainRun{t: t, prop: prop, w: w, orphanBH: map[string]bool{}, orphanTx: map[string]bool{}}
 		r.f = &failer{t: t, prop: prop, ops: &r.ops}
@@ -334,6 +341,22 @@ func chainProperty(prop string) func(t *rapid.T) {
 				r.differentContinuation++
 				r.exec(r.g.genBlock(maxTx), target+1)
 			},
+			"crashChainAhead": func(t *rapid.T) {
+				// the process dies when the chain part of a block is durable (block file, index, chain meta) and its state
+				// part is not: the state store is the one from before the block. On restart the node has to continue from
+				// the block before - the rollback the ledger performs on opening - and nothing of the lost block may answer
+				h := r.head() + 1
+				maxBefore := r.maxHead
+				fs.Arm(0) // from here on no write of the state store reaches the disk
+				r.exec(r.g.genBlock(maxTx), h)
+				old := append([]*chainBlock(nil), r.chain[len(r.chain)-1:]...)
+				r.logf("crash: block %d durable in the chain stores, its state commit lost; restart", h)
+				w.N.Reopen()
+				r.truncate(h - 1)
+				r.maxHead = maxBefore // the state journal never saw this block h
+				r.crashes++
+				afterRollback(h-1, h, old)
+			},
 			"refusedRollback": func(t *rapid.T) {
 				head := r.head()
 				before := sim.DumpState(w.N.StateDB)
@@ -378,6 +401,7 @@ func chainProperty(prop string) func(t *rapid.T) {
 		add(r.differentContinuation > 0, "different-continuation")
 		add(r.reexecSame > 0, "same-blocks-re-executed")
 		add(r.refusals > 0, "refused-rollback")
+		add(r.crashes > 0, "crash-chain-ahead-of-state")
 		nt := ""
 		if r.bigRollbacks > 0 && (r.differentContinuation > 0 || r.reexecSame > 0) {
 			nt = strings.Join(r.ops, "\n")
